@@ -15,6 +15,15 @@ CHECKS["C04"]=dict(text="Every token sequence up to the bound over a 61-token (e
 CHECKS["C05"]=dict(text="Every byte string up to length 4 (quick) / 5-6 (thorough) over a 25-byte alphabet and every prefix / single-byte substitution of a corpus is given to all three machine constructors under a step horizon; every machine obtained is run; for every corpus expression every position (and pair of positions) at which a data-tree callback can fail is enumerated with unique injected errors. Checked: termination, no panic, machine xor error, error quotes the expression with a marker inside it, value xor error, the first injected error is the one reported by GetError and every accessor.",
   note="Trusted: step horizon as termination oracle; the mock xpath.Entry. Schema-side NewCtxFromMach contexts are not driven.",
   technique="bounded exhaustive input enumeration + exhaustive fault-position enumeration on the real code", ref="DESIGN.md §4 C05")
+CHECKS["C02"]=dict(text="Every location path of the bounded grammar (4-8 root kinds incl. current()/deref(), <=2-3 steps, <=1-2 predicates per step in both orders, 7 operand kinds, prefixed steps and keys) in 5 embeddings and at 4 context nodes is compiled and run by the real engine on a recording virtual data tree; a reference designator computed from the XPath AST gives the expected sequence of data-tree requests (root flag, designated node incl. keys, FollowLeafRef sources, GetValue targets) and the expected value, all of which must match.",
+  note="Trusted: the reference designator and the virtual tree (identity = normalised absolute path; leafref target of X is /d+X). Root flag is not compared for deref()-rooted paths and '..'-rooted predicate operands.",
+  technique="bounded exhaustive enumeration of path ASTs on the real engine against a reference designator (recording mock)", ref="DESIGN.md §4 C02")
+CHECKS["C03"]=dict(text="Every operator chain of 3 (6 operand kinds), 4 and 5 (numeric) operands over all 13 binary operators with every unary-minus placement, also nested in function arguments, is compared with its fully parenthesised form produced by a reference XPath 1.0 parser: same PrintMachine() listing, same result, result equal to the reference value. Every whitespace variant (removed / blank / tab+newline / CR at each token boundary, all at once, pairs in thorough) of all 3-chains and of path/function expressions must compile to the same program and result wherever the reference tokenizer sees the same tokens.",
+  note="Trusted: the reference parser and tokenizer (ref/xp10); PrintMachine() as program identity.",
+  technique="bounded exhaustive enumeration of operator chains and whitespace placements, differential against the parenthesised form plus reference value", ref="DESIGN.md §4 C03")
+CHECKS["C06"]=dict(text="All schedules within preemption bound 2 (quick) / 3 (thorough) of every 3-thread scenario built from 10 thread programs (compile / run a shared machine / run with a failing tree) are executed on the real code under a cooperative scheduler whose visible operations are the mutex operations and every access to a mutable package-level variable (found by the instrumenter); shared-machine scenarios are additionally explored at tick (instruction) granularity. Per execution: every thread's observations equal its isolated run, no vector-clock race, no deadlock, no panic. All operation histories up to length 4/5 are executed without resets and every machine must keep its isolated result and listing.",
+  note="Trusted: the instrumenter's notion of mutable package variable, sequentially consistent hand-offs. Heap-level races are only seen through results at tick granularity or by the free-running -race pass of the thorough tier (supporting evidence).",
+  technique="stateless preemption-bounded schedule exploration (controlled scheduler, vector clocks) + exhaustive operation-history enumeration", ref="DESIGN.md §4 C06", engine="E3")
 NOT_YET = {}
 props=[json.loads(l) for l in open('/verif/properties.jsonl')]
 checks=[]; na=[]
